@@ -89,6 +89,13 @@ def run(ctx):
                 continue
         cases.append({'src': 'literal', 'name': lit, 'text': c09.prog(ty, lit), 'feats': frozenset(['literal:' + kind + ':' + lit])})
         cases.append({'src': 'literal', 'name': lit, 'text': f'PROGRAM p\nx := {lit};\nEND_PROGRAM\n', 'feats': frozenset(['literal-expr:' + kind + ':' + lit])})
+    # durations around every boundary of the renderer's unit split: sign x whole x fraction x unit
+    for sign in ('', '-'):
+        for whole in ('0', '1', '999', '1000', '18446744073709551'):
+            for frac in ('', '.5', '.000001', '.999999', '.25'):
+                for unit in ('ms', 's', 'm', 'h', 'd'):
+                    lit = f'T#{sign}{whole}{frac}{unit}'
+                    cases.append({'src': 'literal', 'name': lit, 'text': f'PROGRAM p\nx := {lit};\nEND_PROGRAM\n', 'feats': frozenset(['duration:' + lit])})
     for name, t in fixtures():
         cases.append({'src': 'fixture', 'name': name, 'text': t, 'feats': frozenset(['fixture:' + name])})
     impl = core.run_lines(core.VH, ['render ' + core.hexs(c['text']) for c in cases], jobs=12)
